@@ -291,7 +291,7 @@ def r_C02cd(root):
     return inst, out
 def r_C16a(root):
     t = load(root, M); out = []; inst = 0
-    init = find(t, "get_model_parser.TextXModelParser.__init__"); cl = find(t, "get_model_parser.TextXModelParser.clone")
+    init = find_i(root, M, "get_model_parser.TextXModelParser.__init__"); cl = find_i(root, M, "get_model_parser.TextXModelParser.clone")
     def containers(fn, recv):
         s = set()
         for n in own_nodes(fn):
